@@ -59,7 +59,14 @@ class DriverFactory(object):
         return util.SortedSet(items)
 
     def udt_tuple(self, tree, values):
-        nt = namedtuple("udt", [f[0] for f in tree["fields"]], rename=True)
+        # registered under a module-level name so that instances stay picklable (OrderedMap pickles its keys)
+        names = tuple(f[0] for f in tree["fields"])
+        cname = "udt_nt_%s" % V._hex("\x00".join(names))
+        nt = globals().get(cname)
+        if nt is None:
+            nt = namedtuple(cname, names, rename=True)
+            nt.__module__ = __name__
+            globals()[cname] = nt
         return nt(*values)
 
     def udt_object(self, tree, values):
